@@ -273,3 +273,35 @@ Print Assumptions C20_double_layout.
 Theorem C20_int_double_spec_agrees : forall i, int_to_double i = f64_enc (z2f 53 i).
 Proof. exact int_to_double_model. Qed.
 Print Assumptions C20_int_double_spec_agrees.
+
+(* ================= the last clause: encoding the Default value yields a valid message that conforms to the schema =================
+   For every struct of every literal schema in the model's domain (defaults well-typed and outside the panic classes; the
+   projected schema well-formed, no void container elements): the value the IDL alone determines IS the emitted Default value, is
+   well-typed for the schema, and its encoding by the emitted encoder -- all three protocols, every buffer kind, any writer
+   context -- is the runtime writer's output for the value's self-describing tree (each field with its declared wire type), is a
+   LEGAL encoding of that tree under the protocol specifications (coq/Thrift/Spec.v: binary, compact; binary-LE is pilota's own
+   variant and has no specification), is read back by the generic reader to exactly that tree and by the emitted decoder to the
+   value (fill_defaults: absent optional members of NESTED struct literals come back holding their own defaults -- the
+   difference C02 permits), each consuming exactly the message.  Composition of C20_default_is_idl, default values are
+   well-typed (DefaultEncP.dv_typed), C02_roundtrip, C02_encode_is_write_val, C02_tree_well_typed, C03_written_is_legal, C01. *)
+From PVGen Require Import ErrSpec Proofs.DefaultEncP.
+From PV Require Import Proofs.SpecTreeP.
+Theorem C20_default_encoding_conforms : forall parse_f64 (S : lschema),
+  class_free_schema S = true -> lits_typed parse_f64 S = true ->
+  wf_schema (proj parse_f64 S) = true -> elems_ok (proj parse_f64 S) = true ->
+  forall n fs kp ia v, nth_error (ls_items S) n = Some (IStruct fs kp ia) -> expected_default parse_f64 S n = Some v ->
+  let G := proj parse_f64 S in
+  let tv := to_tval G (TyRef n) v in
+  default_of G (TyRef n) = Some v /\ has_type G (TyRef n) v = true /\
+  wt tv = true /\ ttype_of tv = TStruct /\
+  forall p k c, w_pend c = None ->
+    exists ss,
+      enc_ty G p k (TyRef n) v c = Ok (ss, c) /\
+      write_val p k tv c = Ok (ss, c) /\
+      (p <> PBinaryLE -> legal p tv (flat ss)) /\
+      (forall fuel r rcx, (vsize tv <= fuel)%nat -> idle rcx ->
+         read_val p fuel TStruct (mkS (flat ss ++ r) rcx) = Ok (canon p tv, mkS r rcx)) /\
+      (forall fuel r rcx, (vsize tv <= fuel)%nat -> idle rcx ->
+         gen_decode G p fuel (TyRef n) (mkS (flat ss ++ r) rcx) = Ok (fill_defaults G (TyRef n) v, mkS r rcx)).
+Proof. exact default_encoding_conforms. Qed.
+Print Assumptions C20_default_encoding_conforms.
